@@ -22,6 +22,8 @@ from vlib import Evidence, Verdicts, run_tlc, require_tlc_ok
 
 PID = "C13"
 FAMILIES = ["path", "imp1", "list", "modimp", "chain", "shadow", "two", "other"]
+CHAIN_TREES = ["c3full", "c3nob", "c3noa", "c3none"]
+CHAIN_ORDERS = ["ZXY", "ZYX", "XZY", "XYZ", "YZX", "YXZ"]
 FN_NAMES = ("f", "g")
 PARAM_TAG = 950
 
@@ -316,11 +318,13 @@ def plan(tier):
     if tier == "quick":
         return [("deep3", ["deep3"], FAMILIES, "small", ["same"], 1, 0),
                 ("alias4", ["alias4"], FAMILIES, "none", ["same"], 16, s % 16),
-                ("pkgdir", ["pkgdir"], ["path", "modimp"], "none", ["same"], 4, s % 4)]
+                ("pkgdir", ["pkgdir"], ["path", "modimp"], "none", ["same"], 4, s % 4),
+                ("chain3", CHAIN_TREES, ["chain3"], "none", ["same"], 1, 0)]
     return [("t3", ["deep3", "wide3", "dir3"], FAMILIES, "none", ["same"], 1, 0),
             ("wide3g", ["wide3"], ["list", "imp1"], "none", ["all"], 1, 0),
             ("alias4", ["alias4"], FAMILIES, "none", ["same"], 1, 0),
             ("pkgdir", ["pkgdir"], ["path", "imp1", "modimp", "chain"], "none", ["same"], 1, 0),
+            ("chain3", CHAIN_TREES, ["chain3"], "none", ["same"], 1, 0),
             ("mix4", ["mix4"], FAMILIES, "none", ["same"], 2, s % 2),
             ("full6", ["full6"], FAMILIES, "none", ["same"], 12, s % 12),
             ("full7", ["full7"], FAMILIES, "none", ["same"], 32, s % 32),
@@ -342,14 +346,26 @@ def spec_to_impl(tier, ev, verd, stats):
         vlib.log("C13: TLC %s: %d configurations in %.1fs" % (name, len(r.replay), r.wall))
     ev.extra["tlc_runs"] = parts
     # anti-vacuity: every family, every lookup rule / outcome class
-    fam_count, rule_count = {}, {}
+    fam_count, rule_count, chain_count = {}, {}, {}
     for c in cases:
-        fam_count[c["fam"]] = fam_count.get(c["fam"], 0) + 1
+        fam, _, order = c["fam"].partition(":")
+        fam_count[fam] = fam_count.get(fam, 0) + 1
         k = rule_key(c["rule"])
         rule_count[k] = rule_count.get(k, 0) + 1
-    missing = [f for f in FAMILIES + ["disc"] if not fam_count.get(f)] + [r for r in REQUIRED_RULES if not rule_count.get(r)]
+        if fam == "chain3" and c["exp"]["k"] == "item":
+            # which of the names the chain introduces are also reachable from the enclosing scope (spec: OuterNamesakes)
+            lvl = "module" if c["imps"][0]["sc"]["t"] == "m" else "block"
+            for nm in (sorted(c["outer"]) or ["none"]):
+                key = "%s:%s:outer-%s" % (order, lvl, nm)
+                chain_count[key] = chain_count.get(key, 0) + 1
+    missing = [f for f in FAMILIES + ["disc", "chain3", "chain2"] if not fam_count.get(f)] + [r for r in REQUIRED_RULES if not rule_count.get(r)]
+    # chain-3 x all six orders x same-named module/item in the enclosing scope for each introduced name (block level;
+    # the enclosing scope of a module is the global scope, which holds none of these names), and without any
+    missing += ["chain3 " + k for k in ["%s:block:outer-%s" % (o, nm) for o in CHAIN_ORDERS for nm in ("a", "b", "f", "none")]
+                + ["%s:module:outer-none" % o for o in CHAIN_ORDERS] if not chain_count.get(k)]
     if missing:
         raise vlib.ToolError("reference forms / lookup rules never generated (vacuous run): %s (have %s)" % (missing, sorted(rule_count)))
+    ev.extra["chain3_classes"] = chain_count
     ev.extra["reference_forms"] = fam_count
     ev.extra["lookup_rule_classes"] = rule_count
     hc = [harness_case(c, k) for k, c in enumerate(cases)]
@@ -447,7 +463,13 @@ def random_config(rng):
         frm = scope_mod(sc)
         t, name = pick_target()
         y = rng.random()
-        if y < 0.2 and t:
+        if y < 0.12 and len(t) >= 2:
+            # chain of three dependent imports in one scope, in any order
+            trio = [write(t[:-1], frm), [t[-2], t[-1]], [t[-1], name]]
+            rng.shuffle(trio)
+            for pth in trio:
+                add(sc, pth)
+        elif y < 0.2 and t:
             # dependent imports: a module and an item through its alias, in either order
             pair = [write(t, frm), [t[-1], name]]
             if rng.random() < 0.5:
